@@ -35,8 +35,23 @@ impl CodegenConfig {
     pub fn empty() -> Self { Self(0) }
     pub fn insert(&mut self, o: Self) { self.0 |= o.0; }
     pub fn contains(self, o: Self) -> bool { self.0 & o.0 == o.0 }
+    pub fn remove(&mut self, o: Self) { self.0 &= !o.0; }
+    pub fn all() -> Self { Self(63) }
 }
 /*CONFIG_IMPL*/
+pub struct Options { pub codegen_config: CodegenConfig }
+pub struct Builder { pub options: Options }
+/// the `methods: { .. }` block of the codegen_config entry of options! (options/mod.rs): ignore_functions, ignore_methods, with_codegen_config
+impl Builder {
+/*BUILDER_METHODS*/
+}
+fn app_flag<F: Fn(Builder, bool) -> Builder>(b: Builder, given: bool, f: F) -> Builder { if given { f(b, true) } else { b } }
+fn app_value<F: Fn(Builder, CodegenConfig) -> Builder>(b: Builder, v: Option<CodegenConfig>, f: F) -> Builder { match v { Some(v) => f(b, v), None => b } }
+/// the three entries of the apply_args! table of builder_from_flags (options/cli.rs), applied in table order as CliArg::apply does
+pub fn apply_cli(mut builder: Builder, generate: Option<CodegenConfig>, ignore_functions: bool, ignore_methods: bool) -> Builder {
+/*APPLY_ENTRIES*/
+    builder
+}
 pub enum ErrorKind { InvalidValue }
 pub struct Error; impl Error { pub fn raw<T>(_: ErrorKind, _: T) -> Error { Error } }
 /*PARSE*/
@@ -72,9 +87,9 @@ mod proofs {
             }
             i += 1;
         }
-        let mut v = got.unwrap();
-        if ign_f { v &= !1; } if ign_m { v &= !8; }
-        assert!(v == bits, "CodegenConfig does not round-trip through --generate");
+        // the flags-to-builder direction: the real table entries and builder methods, starting from the default configuration
+        let b = apply_cli(Builder { options: Options { codegen_config: CodegenConfig::all() } }, got.map(CodegenConfig), ign_f, ign_m);
+        assert!(b.options.codegen_config.0 == bits, "CodegenConfig does not round-trip through --generate / --ignore-functions / --ignore-methods");
     }
     // concrete configurations (a symbolic one makes the rendered --generate text symbolic and the real parser intractable): all 63 non-empty sets
     /*GENERATED*/
@@ -255,6 +270,24 @@ def kernels(tier, seed):
         if not m2:
             raise SliceError('codegen_config as_args closure not found')
         body = entry[m2.end():match_brace(entry, m2.end() - 1) - 1]
+        m3 = re.search(r'methods: \{', entry)
+        if not m3:
+            raise SliceError('codegen_config methods block not found')
+        methods = entry[m3.end():match_brace(entry, m3.end() - 1) - 1]
+        # the apply_args! table: entries `name => expr,` / `name,` in order
+        ma = re.search(r'builder = apply_args!\(\s*builder \{', cli)
+        if not ma:
+            raise SliceError('apply_args! invocation not found')
+        table = cli[ma.end():match_brace(cli, ma.end() - 1) - 1]
+        ents = []
+        for name in ('generate', 'ignore_functions', 'ignore_methods'):
+            mm = re.search(r'^\s*%s(\s*=>\s*(?P<f>.*?))?,\s*$' % name, table, flags=re.M)
+            if not mm:
+                raise SliceError('apply_args! entry %s not found' % name)
+            ents.append((mm.start(), name, mm.group('f') or 'Builder::%s' % name))
+        ents.sort()
+        apply_lines = '\n'.join('    builder = %s(builder, %s, %s);' % ('app_value' if n == 'generate' else 'app_flag', n, f) for _, n, f in ents)
+        apply_src = '\n'.join('%s => %s' % (n, f) for _, n, f in ents)
         parse = extract(cli, r'^fn parse_codegen_config\(', what='parse_codegen_config')
         impl = extract(lib, r'^impl CodegenConfig \{', what='impl CodegenConfig')
         # mechanical rewrites of the sliced closure (listed in evidence): owned strings -> tokens
@@ -264,14 +297,14 @@ def kernels(tier, seed):
             vals = [v for v in range(g * 16, g * 16 + 16) if v != 0]    # the empty set prints `--generate ""`, which no parser accepts
             gens.append('#[kani::proof] #[kani::unwind(66)] #[kani::stub(core::slice::memchr::memchr, naive_memchr)] #[kani::stub(alloc::fmt::format, stub_format)] fn generate_flag_roundtrips_%d() { %s }' % (g, ' '.join('case(%d);' % v for v in vals)))
             hs.append(H('generate_flag_roundtrips_%d' % g, stubbing=True, timeout=900, tier='quick' if g in (0, 3) else 'thorough',
-                        desc='CodegenConfig values %d..%d: as_args -> --generate/--ignore-* -> parse_codegen_config = identity' % (vals[0], vals[-1]), sample={'configs': vals}))
-        text = GEN_HARNESS.replace('/*GENERATED*/', '\n    '.join(gens)).replace('/*TOK*/', TOK).replace('/*CONFIG_IMPL*/', impl).replace('/*PARSE*/', parse).replace('/*AS_ARGS*/', body_t)
+                        desc='CodegenConfig values %d..%d: as_args -> --generate/--ignore-* -> parse_codegen_config -> the real apply_args! entries and builder methods = identity' % (vals[0], vals[-1]), sample={'configs': vals}))
+        text = GEN_HARNESS.replace('/*GENERATED*/', '\n    '.join(gens)).replace('/*TOK*/', TOK).replace('/*CONFIG_IMPL*/', impl).replace('/*PARSE*/', parse).replace('/*AS_ARGS*/', body_t).replace('/*BUILDER_METHODS*/', methods).replace('/*APPLY_ENTRIES*/', apply_lines)
         k = Kernel(name='generate_flag')
         k.files = {'src/lib.rs': text}
         k.harnesses = hs
-        k.encoded = [enc('options/mod.rs', 'options! codegen_config: as_args closure', body), enc('options/cli.rs', 'fn parse_codegen_config', parse), enc('lib.rs', 'impl CodegenConfig', impl)]
+        k.encoded = [enc('options/mod.rs', 'options! codegen_config: methods block (ignore_functions, ignore_methods, with_codegen_config)', methods), {'file': 'bindgen/options/cli.rs', 'item': 'apply_args! entries generate / ignore_functions / ignore_methods (table order)', 'sha256': sha(apply_src), 'lines': None}, enc('options/mod.rs', 'options! codegen_config: as_args closure', body), enc('options/cli.rs', 'fn parse_codegen_config', parse), enc('lib.rs', 'impl CodegenConfig', impl)]
         k.stubs = ['CodegenConfig: u32 newtype with the constants/empty/insert/contains of the bitflags type', 'clap Error::raw: unit', '-Z stubbing: memchr naive loop, fmt::format empty', 'mechanical rewrites of the as_args closure: "lit".to_owned() -> Tok::from("lit"), Vec<String> -> Vec<Tok>, options.join(",") -> Tok::join(&options, ",") (token stand-ins for heap strings; the joined token is rendered to text by the harness before the real parser runs)']
-        k.assumptions = ['cli.rs applies --ignore-functions / --ignore-methods after --generate by clearing the bit (modelled in the harness)', 'the empty CodegenConfig is excluded (prints `--generate ""`)']
+        k.assumptions = ['CliArg::apply calls the entry for a bool flag iff it is given and for an Option iff it is Some (options/cli.rs impl CliArg; read, modelled by app_flag / app_value)', 'the empty CodegenConfig is excluded (prints `--generate ""`)']
         k.bounds = ['all 63 non-empty CodegenConfig values, concrete per call (exhaustive finite domain)']
         return k
 
